@@ -149,6 +149,8 @@ Doc(ev) ==
      LET dm == DecodeMsgPack(ev.mp, 255, TrueV) IN
      /\ Require(M => (dm.code = "Ok" /\ dm.read = Len(ev.mp)), "MessagePack output is not exactly one well-formed object")
      /\ Require(M => SameMp(dm.v, ev.v), "MessagePack output does not denote the document")
+     /\ Require(ev.cls = "plain" => TightHeaders(ev.mp, 1, 1),
+                "a string, array or map header is wider than the length needs (the header must change at 31/32, 255/256, 65535/65536 resp. 15/16, 65535/65536)")
      /\ Require(\A j \in 1..Len(ev.fenc) : FloatEncoding(ev.fenc[j]),
                 "a floating-point value is neither bit-exact float32/float64 nor the integer encoding of the same integral value")
      /\ Require(ev.mpkinds, "a destination kind received different MessagePack bytes or returned a different count")
